@@ -7649,3 +7649,174 @@ func ruleIdxCanon(prop string) ruleFn {
 		}
 	}
 }
+
+// PRIV-LOCAL (C12, C13): the lock-skipping privilege is never put on a context that somebody else can see.
+func rulePrivLocal(prop string) ruleFn {
+	return func(w *World, r *Report) {
+		r.Rule("PRIV-LOCAL", "while a state runs a hook it holds its lock, and marks a Context as privileged so that the hook's own calls into the state skip that lock (slock / sunlock test the mark).  A Context is shared between goroutines: the actions of a rule run concurrently with the event's context, the ticks of all scheduled rules that one request loaded run with that request's context.  Marked, such a context makes the *other* goroutines skip the lock that is held, and, when the mark is gone by the time they are done, unlock it (`fatal error: sync: Unlock of unlocked RWMutex`) — or take it and never give it back.  Therefore every call of Context.grantPrivilege has as its receiver a context made for the purpose in the same function (the result of SubContext), and SubContext does not hand the mark on", 1)
+		grant := w.Method("core", "Context", "grantPrivilege")
+		sub := w.Method("core", "Context", "SubContext")
+		n := 0
+		for _, fn := range w.Funcs {
+			if !w.IsRulio(fn) || isTestFile(w, fn) {
+				continue
+			}
+			allInstrs(fn, func(in ssa.Instruction) {
+				c := callOf(in)
+				if c == nil || c.StaticCallee() != grant || len(c.Args) == 0 {
+					return
+				}
+				n++
+				key := "fn=" + fname(fn)
+				if cc, ok := resolveSpill(c.Args[0]).(*ssa.Call); ok && cc.Common().StaticCallee() == sub {
+					r.ok("PRIV-LOCAL", key, w.PosOf(in), "the privilege goes to a context made here for the hook")
+				} else {
+					r.violation("PRIV-LOCAL", key, w.PosOf(in), "the privilege is granted on a context that the caller handed in: every goroutine that shares it (sibling actions, ticks) skips the state lock meanwhile, and unlocks a lock it never took")
+				}
+			})
+		}
+		// SubContext itself: no store into the new context's privilege field
+		leak := false
+		allInstrs(sub, func(in ssa.Instruction) {
+			if st, ok := in.(*ssa.Store); ok {
+				if _, f, _, ok := fieldOf(st.Addr); ok && f == "privilege" {
+					leak = true
+				}
+			}
+		})
+		if leak {
+			r.violation("PRIV-LOCAL", "fn="+fname(sub), w.Pos(sub.Pos()), "SubContext copies the privilege: a context made for another goroutine (a tick, a concurrently run action) while a hook runs skips the state lock for its whole life")
+		} else {
+			r.ok("PRIV-LOCAL", "fn="+fname(sub), w.Pos(sub.Pos()), "a sub-context starts without the privilege")
+		}
+		if n == 0 {
+			r.exempt("PRIV-LOCAL", "fn="+fname(grant), "", "grantPrivilege is never called: not decided")
+		}
+	}
+}
+
+// ctxMutators: the functions from which Context.SetLoc or Context.grantPrivilege is reachable.
+func ctxMutators(w *World) map[*ssa.Function]bool {
+	out := map[*ssa.Function]bool{}
+	var work []*ssa.Function
+	for _, name := range []string{"SetLoc", "grantPrivilege"} {
+		if f := w.TryMethod("core", "Context", name); f != nil {
+			out[f] = true
+			work = append(work, f)
+		}
+	}
+	for len(work) > 0 {
+		f := work[len(work)-1]
+		work = work[:len(work)-1]
+		for _, e := range w.Callers(f) {
+			cf := e.Caller.Func
+			if cf == nil || out[cf] || !w.IsRulio(cf) || isTestFile(w, cf) {
+				continue
+			}
+			out[cf] = true
+			work = append(work, cf)
+		}
+	}
+	return out
+}
+
+// CTX-PER-GOROUTINE (C09, C04, C11, C12, C15): what runs concurrently has a context of its own.
+func ruleCtxPerGoroutine(prop string) ruleFn {
+	return func(w *World, r *Report) {
+		r.Rule("CTX-PER-GOROUTINE", "processing an event, running an action, searching with `inherited` point the Context they are given at locations (Context.SetLoc: the location whose script runs, each ancestor during its part of a walk), and what runs next reads `the context's location` (the script environment's Env.AddFact, the cron hooks' job keys).  Two goroutines doing that with one Context redirect each other: an action of a child's rule writes its facts into the parent.  Therefore a function literal that is started with `go` in the event engine (core/events.go), or handed to the in-memory cron as a job, passes a captured *Context to nothing that can reach SetLoc — it works with a context of its own (SubContext)", 2)
+		mut := ctxMutators(w)
+		cronAdd := w.TryMethod("cron", "Cron", "Add")
+		ctxT := w.Named("core", "Context")
+		isCtxPtr := func(t types.Type) bool {
+			p, ok := t.(*types.Pointer)
+			if !ok {
+				return false
+			}
+			n, ok := p.Elem().(*types.Named)
+			return ok && n.Obj() == ctxT.Obj()
+		}
+		// a captured context: a FreeVar of type *Context, or the load of a FreeVar of type **Context
+		captured := func(v ssa.Value) bool {
+			v = resolveSpill(v)
+			if fv, ok := v.(*ssa.FreeVar); ok && isCtxPtr(fv.Type()) {
+				return true
+			}
+			if u, ok := v.(*ssa.UnOp); ok && u.Op == token.MUL {
+				if fv, ok := u.X.(*ssa.FreeVar); ok {
+					if p, ok := fv.Type().(*types.Pointer); ok && isCtxPtr(p.Elem()) {
+						return true
+					}
+				}
+			}
+			return false
+		}
+		var closures []*ssa.Function
+		why := map[*ssa.Function]string{}
+		for _, fn := range w.Funcs {
+			if !w.IsRulio(fn) || isTestFile(w, fn) {
+				continue
+			}
+			rel := w.RelPkg(fn)
+			allInstrs(fn, func(in ssa.Instruction) {
+				switch x := in.(type) {
+				case *ssa.Go:
+					if rel != "core" || !strings.HasSuffix(w.Prog.Fset.Position(fn.Pos()).Filename, "events.go") {
+						return
+					}
+					if mc, ok := x.Call.Value.(*ssa.MakeClosure); ok {
+						if f, ok := mc.Fn.(*ssa.Function); ok {
+							closures = append(closures, f)
+							why[f] = "started with `go` in " + fname(fn)
+						}
+					}
+				case *ssa.Call:
+					if cronAdd == nil || x.Common().StaticCallee() != cronAdd {
+						return
+					}
+					for _, a := range x.Common().Args {
+						if mc, ok := resolveSpill(a).(*ssa.MakeClosure); ok {
+							if f, ok := mc.Fn.(*ssa.Function); ok {
+								closures = append(closures, f)
+								why[f] = "a cron job made in " + fname(fn)
+							}
+						}
+					}
+				}
+			})
+		}
+		for _, cl := range closures {
+			key := "closure=" + fname(cl)
+			var bad ssa.Instruction
+			badCallee := ""
+			allInstrs(cl, func(in ssa.Instruction) {
+				c := callOf(in)
+				if c == nil || bad != nil {
+					return
+				}
+				for i, a := range c.Args {
+					if !captured(a) {
+						continue
+					}
+					for _, callee := range w.Callees(in.(ssa.CallInstruction)) {
+						if !mut[callee] {
+							continue
+						}
+						// a method of Context on the captured context itself: only the two mutators count
+						if i == 0 && callee.Signature.Recv() != nil && isCtxPtr(callee.Signature.Recv().Type()) && callee.Name() != "SetLoc" && callee.Name() != "grantPrivilege" {
+							continue
+						}
+						bad, badCallee = in, fname(callee)
+					}
+				}
+			})
+			if bad != nil {
+				r.violation("CTX-PER-GOROUTINE", key, w.PosOf(bad), why[cl]+": it hands the context it shares with its siblings to "+badCallee+", which can re-point it (Context.SetLoc)")
+			} else {
+				r.ok("CTX-PER-GOROUTINE", key, w.Pos(cl.Pos()), why[cl]+": the shared context goes to nothing that re-points it")
+			}
+		}
+		if len(closures) == 0 {
+			r.exempt("CTX-PER-GOROUTINE", "file=core/events.go", "", "no goroutine / cron job literal found: shape not recognised, not decided")
+		}
+	}
+}
